@@ -48,7 +48,10 @@ type Case struct {
 	SlotsPerEpoch uint64   `json:"slots_per_epoch"`
 	StartEpoch    uint64   `json:"start_epoch"`
 	RootSlot      []uint64 `json:"root_slot"`
-	Ops           []Op     `json:"ops"`
+	// Parent[i] is the index of the root's parent block in the universe (a root with a lower slot, not
+	// necessarily slot-1: slots can be skipped), or -1 when the parent is outside the universe.
+	Parent []int `json:"parent,omitempty"`
+	Ops    []Op  `json:"ops"`
 }
 
 // burstRoot is a root outside the universe, unique per (op, goroutine, k).
@@ -57,6 +60,17 @@ func burstRoot(op, g, k int) phase0.Root {
 	r[0] = 0xff
 	r[1], r[2], r[3] = byte(op), byte(g), byte(k)
 	r[31] = 0xc2
+	return r
+}
+
+// parentRoot is the parent root reported in root i's header.
+func (c *Case) parentRoot(i int) phase0.Root {
+	if i < len(c.Parent) && c.Parent[i] >= 0 && c.Parent[i] < len(c.RootSlot) {
+		return rootOf(c.Parent[i])
+	}
+	var r phase0.Root
+	r[0] = byte(i + 1)
+	r[31] = 0xc3 // a root outside the universe
 	return r
 }
 
@@ -94,7 +108,8 @@ func (h *headers) BeaconBlockHeader(_ context.Context, opts *api.BeaconBlockHead
 				Root:      rootOf(i),
 				Canonical: true,
 				Header: &phase0.SignedBeaconBlockHeader{Message: &phase0.BeaconBlockHeader{
-					Slot: phase0.Slot(h.c.RootSlot[i]),
+					Slot:       phase0.Slot(h.c.RootSlot[i]),
+					ParentRoot: h.c.parentRoot(i),
 				}},
 			}, Metadata: map[string]any{}}, nil
 		}
@@ -172,11 +187,27 @@ func genCase(t *rapid.T) Case {
 		}
 		c.RootSlot = append(c.RootSlot, slot)
 	}
+	// Parent links: some root of the universe with a strictly lower slot (any gap: skipped slots), or none.
+	for i := 0; i < nRoots; i++ {
+		parent := -1
+		if rapid.Bool().Draw(t, "hasParent") {
+			var cands []int
+			for j := 0; j < nRoots; j++ {
+				if c.RootSlot[j] < c.RootSlot[i] {
+					cands = append(cands, j)
+				}
+			}
+			if len(cands) > 0 {
+				parent = cands[rapid.IntRange(0, len(cands)-1).Draw(t, "parent")]
+			}
+		}
+		c.Parent = append(c.Parent, parent)
+	}
 	return c
 }
 
 type stats struct {
-	missNonZero, cleanAfterRetention, boundaryKept, failedFetch, hitAfterMiss, burst bool
+	missNonZero, cleanAfterRetention, boundaryKept, failedFetch, hitAfterMiss, burst, knewMore bool
 }
 
 // runAndJudge executes the history against a fresh real cache service and the
@@ -325,7 +356,14 @@ func runAndJudge(c *Case) (string, string, stats) {
 			default:
 				if consulted == 0 {
 					if !maybe[op.Root] {
-						return "miss-not-fetched", fmt.Sprintf("%s: unknown root answered (%d,%v) without asking the beacon node", where, got, err), st
+						// The cache answered for a root the model never saw delivered.  Knowing more than the
+						// model is harmless only if it is right.
+						if err != nil || uint64(got) != want {
+							return "unknown-root-answered-wrongly", fmt.Sprintf("%s: root never delivered by an event or a fetch was answered (%d,%v) without asking the beacon node", where, got, err), st
+						}
+						st.knewMore = true
+						model[op.Root] = true
+						break
 					}
 					// still cached although old: allowed; must be right
 					if err != nil || uint64(got) != want {
@@ -401,6 +439,15 @@ func check(t ev.TB, c *Case) {
 	}
 	if st.burst {
 		labels = append(labels, "block-events-concurrent-with-clean")
+	}
+	if st.knewMore {
+		labels = append(labels, "cache-knew-a-root-the-model-did-not(correctly)")
+	}
+	for i, p := range c.Parent {
+		if p >= 0 && c.RootSlot[i] > c.RootSlot[p]+1 {
+			labels = append(labels, "parent-link-across-skipped-slots")
+			break
+		}
 	}
 	ev.Case(nontrivial, ev.Hash(c), labels...)
 	if nontrivial {
